@@ -163,7 +163,6 @@ EQUIVALENT = {
     "c15-parent-stop": "on CPython a greenlet's stack ends at f_back None; the parent's gr_frame test only matters on PyPy",
     "c16-better-origin-always": "since F5 a non-generator-like origin is dropped when the Frame is built, so preferring it changes nothing observable",
     "c07-f15-stacktop-read-twice": "masked by the other clause of the same repair: when the frame gets suspended between the two reads the final assert (f_stacktop / f_lasti unchanged) rejects the snapshot; survived 100 k racing runs of the thorough tier as well",
-    "c07-f15-no-agreement-check": "below the validity limit a value-stack slot only ever holds __exit__ methods and loop iterators, and every address must already have been looked up (and pinned) in an earlier pass: a torn pass can then only name a manager the frame held a moment earlier during the same call, which the property allows (consistent with one of the positions occupied); survived 110 k racing runs of the thorough tier",
     "c18-blank-lines": "cosmetic: an extra blank separator line; the reader skips blank lines",
 }
 
